@@ -1196,8 +1196,10 @@ pub const AOP_ADD: verifsim::prog::AOp = verifsim::prog::AOp::Add;
 /// baseline is computed on an independently built copy, so the shared objects meet their first
 /// use concurrently. Returns the process exit code.
 pub fn miri_scenario(seed: u64) -> i32 {
-    // a thread that used the library before anything was built (see `EarlyBird`)
-    let bird = EarlyBird::start();
+    // a thread that used the library before anything was built (see `EarlyBird`) - in the even
+    // families only: its warm-up is the library's first use in the process, and the odd families
+    // are the ones whose first use must be the concurrent phase itself
+    let bird = if seed % 2 == 0 { Some(EarlyBird::start()) } else { None };
     let w = miri_workload(seed);
     let reference = match build_shared(&w) {
         Ok(s) => s,
@@ -1258,17 +1260,21 @@ pub fn miri_scenario(seed: u64) -> i32 {
         expected = e;
         expected_probes = p;
     }
-    let on_bird = {
-        let ops = w.threads.first().cloned().unwrap_or_default();
-        let sh = sh.clone();
-        bird.run(move || {
-            let _ = take_built();
-            let r = ops.iter().map(|o| exec(o, &sh)).collect::<Vec<String>>();
-            let _ = take_built();
+    let on_bird = match bird {
+        Some(bird) => {
+            let ops = w.threads.first().cloned().unwrap_or_default();
+            let sh = sh.clone();
+            let r = bird.run(move || {
+                let _ = take_built();
+                let r = ops.iter().map(|o| exec(o, &sh)).collect::<Vec<String>>();
+                let _ = take_built();
+                r
+            });
+            bird.shutdown();
             r
-        })
+        },
+        None => None,
     };
-    bird.shutdown();
     if let (Some(got), Some(exp)) = (on_bird, expected.first()) {
         if let Some(k) = (0..exp.len()).find(|k| got.get(*k) != Some(&exp[*k])) {
             println!(
